@@ -18,6 +18,9 @@ var alphabet = []byte{0x00, 0x01, 0x10, 0x11, 0x12, 0x05, 0x07, 0x30, 0x35, 0xf0
 
 func pickB(r *prng.R) byte { return alphabet[r.Intn(len(alphabet))] }
 
+// longCase: the current case is a long history over a big key pool (thorough tier, 1 case in 12)
+var longCase bool
+
 func mkPool(r *prng.R, o *hx.Out) [][]byte {
 	var base []byte
 	switch r.Intn(6) {
@@ -35,6 +38,9 @@ func mkPool(r *prng.R, o *hx.Out) [][]byte {
 	n := r.Range(2, 18)
 	if r.Chance(1, 6) {
 		n = r.Range(18, 48)
+	}
+	if longCase {
+		n = r.Range(40, 96)
 	}
 	seen := map[string]bool{}
 	var pool [][]byte
@@ -134,6 +140,10 @@ func genCase(w *world) {
 	pool := mkPool(r, w.o)
 	vals := mkVals(r, w.o)
 	nops := r.Range(8, 45)
+	if longCase {
+		nops = r.Range(120, 400)
+		w.o.Count("case:long")
+	}
 	weights := []int{30, 14, 12, 8, 4, 3, 3, 5, 9, 5, 4}
 	if r.Chance(1, 5) { // batch-heavy history
 		weights[2] = 40
